@@ -219,6 +219,52 @@ func (c *Ctx) dischargeIndex(in ssa.Instruction, x, idx ssa.Value) Result {
 			}
 		}
 	}
+	// comparator of sort.Slice / SliceStable / slices.SortFunc-style helpers: the library calls
+	// less(i, j) only with 0 <= i, j < len(x) of the slice it was given; the index is such a
+	// parameter and the indexed slice is that slice (and the comparator does not resize it)
+	if p, ok := idx.(*ssa.Parameter); ok && p.Parent() != nil && p.Parent().Parent() != nil {
+		cl := p.Parent()
+		outer := cl.Parent()
+		found := false
+		for _, b := range outer.Blocks {
+			for _, oi := range b.Instrs {
+				call, ok := oi.(*ssa.Call)
+				if !ok || call.Call.IsInvoke() {
+					continue
+				}
+				callee := call.Call.StaticCallee()
+				if callee == nil || callee.Pkg == nil || callee.Pkg.Pkg.Path() != "sort" || (callee.Name() != "Slice" && callee.Name() != "SliceStable") || len(call.Call.Args) != 2 {
+					continue
+				}
+				mc, ok := call.Call.Args[1].(*ssa.MakeClosure)
+				if !ok || mc.Fn != ssa.Value(cl) {
+					continue
+				}
+				sorted := call.Call.Args[0]
+				if mi, ok := sorted.(*ssa.MakeInterface); ok {
+					sorted = mi.X
+				}
+				if c.baseDesc(sorted, 0) == c.baseDesc(x, 0) && c.baseDesc(x, 0) != "" {
+					found = true
+				}
+			}
+		}
+		if found {
+			resized := false
+			for _, b := range cl.Blocks {
+				for _, ci := range b.Instrs {
+					if st, ok := ci.(*ssa.Store); ok {
+						if c.baseDesc(st.Addr, 0) == c.baseDesc(x, 0) {
+							resized = true
+						}
+					}
+				}
+			}
+			if !resized {
+				return Result{true, "sort-comparator-index", "index is a parameter of the comparator passed to sort.Slice over this very slice (library contract: 0 <= i, j < len)"}
+			}
+		}
+	}
 	if !okLB || lb < 0 {
 		return Result{false, "", "no non-negative lower bound for the index is established"}
 	}
